@@ -267,6 +267,114 @@ fn check_dir(h: &History, work: &Path, tag: &str, tier: &str, seed_rng: &mut Rng
     res
 }
 
+/// Reader-level correspondence: real WalReader / Snapshot::load on (mutated) bytes vs Model/WalBytes.v.
+/// Writes cases_<k>.v under `out`. Returns (number of cases, samples).
+fn reader_cases(files_list: &[Files], r: &mut Rng, out: &Path, per_file: usize) -> (usize, Vec<serde_json::Value>) {
+    use kyrodb_engine::{WalEntry, WalReader, Snapshot};
+    let mut cases: Vec<String> = vec![];
+    let mut samples = vec![];
+    let tmp = out.join("reader_tmp");
+    let _ = std::fs::create_dir_all(&tmp);
+    let fmt_bytes = |b: &[u8]| format!("[{}]", b.iter().map(|x| x.to_string()).collect::<Vec<_>>().join(";"));
+    for files in files_list {
+        for (name, orig) in files {
+            if !(name.ends_with(".wal") || name.ends_with(".snap")) || orig.len() > 1200 { continue }
+            let mut variants: Vec<(String, Vec<u8>)> = vec![("intact".into(), orig.clone())];
+            for _ in 0..per_file {
+                let mut b = orig.clone();
+                let what = match r.below(5) {
+                    0 => { let n = r.below(b.len() as u64 + 1) as usize; b.truncate(n); format!("truncate {}", n) }
+                    1 if name.ends_with(".wal") => {
+                        // flip inside a frame's length field
+                        let frs = wal_frames(orig);
+                        if frs.is_empty() { continue }
+                        let fr = r.pick(&frs).clone();
+                        let o = fr.start + r.below(4) as usize; let bit = r.below(8) as u8; b[o] ^= 1 << bit; format!("flip len-field {}:{}", o, bit)
+                    }
+                    2 => { b.extend((0..r.range(1, 12)).map(|_| r.below(256) as u8)); "append garbage".to_string() }
+                    _ => { if b.is_empty() { continue } let o = r.below(b.len() as u64) as usize; let bit = r.below(8) as u8; b[o] ^= 1 << bit; format!("flip {}:{}", o, bit) }
+                };
+                variants.push((what, b));
+            }
+            for (what, b) in variants {
+                let path = tmp.join("f.bin");
+                std::fs::write(&path, &b).unwrap();
+                if name.ends_with(".wal") {
+                    // independent frame walk to tell Coq which payloads bincode accepts
+                    let mut good: Vec<Vec<u8>> = vec![];
+                    // (payload bytes, canonical rendering of the entry) in file order; metadata is a
+                    // HashMap, so re-serialising a returned entry would not reproduce the bytes
+                    let canon = |e: &WalEntry| serde_json::to_string(&serde_json::to_value(e).unwrap_or(json!(null))).unwrap_or_default();
+                    let mut in_order: Vec<(Vec<u8>, String)> = vec![];
+                    for fr in wal_frames(&b) {
+                        let p = &b[fr.start + 4..fr.end - 4];
+                        if let Ok(e) = bincode::deserialize::<WalEntry>(p) {
+                            in_order.push((p.to_vec(), canon(&e)));
+                            if !good.iter().any(|g| g == p) { good.push(p.to_vec()) }
+                        }
+                    }
+                    let obs = match WalReader::open(&path) {
+                        Err(_) => "None".to_string(),
+                        Ok(mut rd) => match rd.read_all() {
+                            Err(_) => continue,
+                            Ok(es) => {
+                                let mut pos = 0usize;
+                                let mut outp: Vec<String> = vec![];
+                                for e in &es {
+                                    let c = canon(e);
+                                    match in_order[pos.min(in_order.len())..].iter().position(|(_, k)| *k == c) {
+                                        Some(off) => { outp.push(fmt_bytes(&in_order[pos + off].0)); pos += off + 1 }
+                                        None => outp.push("[999]".to_string()), // an entry no frame of the file explains
+                                    }
+                                }
+                                format!("(Some ([{}], {}%N))", outp.join("; "), rd.corrupted_entries())
+                            }
+                        },
+                    };
+                    cases.push(format!("CWal {} [{}] {}", fmt_bytes(&b), good.iter().map(|g| fmt_bytes(g)).collect::<Vec<_>>().join("; "), obs));
+                    if samples.len() < 3 { samples.push(json!({"file": name, "kind": "wal", "mutation": what, "len": b.len(), "observed": obs.chars().take(80).collect::<String>()})) }
+                } else {
+                    // snapshot envelope only: does the file pass magic/size/checksum? (bincode of the
+                    // payload is outside the model; a load that fails AFTER the checksum is skipped)
+                    // a damaged size field makes Snapshot::load allocate `size` bytes up front; beyond
+                    // 16 MiB we do not call it (the process would abort = refuses to start) and record
+                    // the refusal directly
+                    let huge = b.len() >= 12 && u64::from_le_bytes(b[4..12].try_into().unwrap()) > (1 << 24);
+                    let ok = if huge { false } else { Snapshot::load(&path).is_ok() };
+                    let env_ok = b.len() >= 16 && {
+                        let size = u64::from_le_bytes(b[4..12].try_into().unwrap()) as usize;
+                        b[0..4] == [0x50, 0x41, 0x4e, 0x53] && b.len() >= 16usize.saturating_add(size) && size < (1 << 30) && {
+                            let data = &b[12..12 + size];
+                            let ck = u32::from_le_bytes(b[12 + size..16 + size].try_into().unwrap());
+                            crc32fast_hash(data) == ck
+                        }
+                    };
+                    if env_ok && !ok { continue }
+                    cases.push(format!("CSnap {} {}", fmt_bytes(&b), if ok { "true" } else { "false" }));
+                    if samples.len() < 3 { samples.push(json!({"file": name, "kind": "snapshot", "mutation": what, "len": b.len(), "loads": ok})) }
+                }
+            }
+        }
+    }
+    let shard = 60usize;
+    let mut k = 0;
+    for ch in cases.chunks(shard) {
+        let body: Vec<String> = ch.iter().enumerate().map(|(i, c)| format!("({}%N, {})", k * shard + i, c)).collect();
+        let text = format!("From Coq Require Import List NArith Bool.\nFrom Kyro Require Import Model.WalBytes Proofs.WalBytesProofs.\nImport ListNotations.\nOpen Scope N_scope.\nInductive rcase := CWal (file : bytes) (good : list bytes) (ob : option (list bytes * N)) | CSnap (file : bytes) (loads : bool).\nDefinition ok (c : rcase) : bool := match c with\n | CWal f good ob => obs_eqb (read_all crc32m (fun p => mem_bytes p good) f) ob\n | CSnap f loads => Bool.eqb (match snapshot_load crc32m f with Some _ => true | None => false end) loads end.\nDefinition cases : list (N * rcase) := [\n {}\n].\nDefinition bad : list N := map fst (filter (fun c => negb (ok (snd c))) cases).\nGoal True. idtac \"@@bad\". Abort.\nEval vm_compute in bad.\nGoal True. idtac \"@@count\". Abort.\nEval vm_compute in (N.of_nat (length cases)).\n", body.join(";\n "));
+        std::fs::write(out.join(format!("cases_{}.v", k)), text).unwrap();
+        k += 1;
+    }
+    let _ = std::fs::remove_dir_all(&tmp);
+    (cases.len(), samples)
+}
+
+fn crc32fast_hash(b: &[u8]) -> u32 {
+    // plain bitwise CRC-32 (IEEE), independent of the engine's crc32fast
+    let mut c: u32 = 0xFFFF_FFFF;
+    for &x in b { c ^= x as u32; for _ in 0..8 { c = if c & 1 != 0 { (c >> 1) ^ 0xEDB8_8320 } else { c >> 1 } } }
+    c ^ 0xFFFF_FFFF
+}
+
 fn kind_of(f: &str) -> &'static str { if f.ends_with(".wal") { "wal" } else if f.ends_with(".snap") { "snapshot" } else if f == "MANIFEST" { "manifest" } else { "other" } }
 
 fn main() {
@@ -327,6 +435,19 @@ fn main() {
     });
     let mut results = results.into_inner().unwrap();
     results.sort_by_key(|x| x.0);
+    // reader-level correspondence cases from fresh directories of the same histories
+    let mut files_list: Vec<Files> = vec![];
+    for (j, (h, _)) in jobs.iter().enumerate().take(6) {
+        let base = work.join(format!("r{}_base", j));
+        let _ = std::fs::remove_dir_all(&base);
+        std::fs::create_dir_all(&base).unwrap();
+        { let mut be = eng::start(&h.cfg, &base).ok(); for op in &h.ops { let _ = eng::apply(&mut be, &h.cfg, &base, op); } }
+        files_list.push(read_dir(&base));
+        let _ = std::fs::remove_dir_all(&base);
+    }
+    for f in std::fs::read_dir(&work).unwrap().flatten() { if f.file_name().to_string_lossy().starts_with("cases_") { let _ = std::fs::remove_file(f.path()); } }
+    let mut rr = Rng::new(seed ^ 0xC13);
+    let (reader_n, reader_samples) = reader_cases(&files_list, &mut rr, &work, if tier == "thorough" { 40 } else { 8 });
     let mut fails = vec![];
     let (mut damages, mut refused, mut exact, mut changed, mut files, mut aborted) = (0u64, 0u64, 0u64, 0u64, 0usize, 0u64);
     let mut kinds: BTreeMap<String, u64> = BTreeMap::new();
@@ -337,6 +458,7 @@ fn main() {
     }
     let summary = json!({"directories": jobs.len(), "files": files, "damages": damages, "refused": refused, "of_which_process_aborts": aborted, "recovered_exact": exact,
         "damages_that_changed_the_parse": changed, "damage_kinds": kinds, "failures": fails.len(),
+        "reader_cases": reader_n, "reader_samples": reader_samples,
         "samples": jobs.iter().take(1).map(|j| &j.0).collect::<Vec<_>>()});
     std::fs::write(work.join("summary.json"), serde_json::to_string_pretty(&summary).unwrap()).unwrap();
     std::fs::write(work.join("failures.json"), serde_json::to_string(&fails).unwrap()).unwrap();
